@@ -14,6 +14,6 @@ Task: produce {n} DIFFERENT behaviour-preserving source changes (pure refactorin
 
 Each change must (a) compile (`go build ./...` in the root and in ./schema), (b) keep the existing test suite passing (`cd /tmp/wtb{r}-{p} && go test -vet=off -count=1 -timeout 600s ./... && cd schema && go test -vet=off -count=1 ./...`; a few root-package tests are flaky/hang occasionally even on the unchanged tree — rerun up to 3 times before concluding), and (c) be gofmt-clean.
 
-Environment: no network. Before any go command: `export GOFLAGS= GOPROXY=off GOSUMDB=off GOTOOLCHAIN=local`. The repo has a go.work (root module + ./schema).
+Never use `git stash` (the stash is shared by all worktrees of the repository and other people work in sibling worktrees). Environment: no network. Before any go command: `export GOFLAGS= GOPROXY=off GOSUMDB=off GOTOOLCHAIN=local`. The repo has a go.work (root module + ./schema).
 
 Deliver, for change k = 1..{n}, a directory /tmp/benign{r}-{p}/change<k>/ containing patch.diff (`git diff` against the worktree HEAD, applies with `git apply`) and meta.json with keys: property ("{p}"), name (short-kebab-case), kind (what sort of refactoring), functions (which functions it touches), why_equivalent (one or two sentences), files_changed. Leave the worktree clean (git checkout -- .) when done. In your final answer list the {n} changes with one line each.""")
